@@ -416,6 +416,10 @@ func search(t *testing.T, p *Prop, job *Job, emit func(any), tick func()) {
 		sum.Runs++
 		if o.Discarded {
 			sum.Discarded++
+			if sum.Discarded <= 2 && o.Sample != nil {
+				b, _ := json.Marshal(o.Sample)
+				fmt.Fprintf(os.Stderr, "VERIF-DISCARDED run=%d %s\n", i, b)
+			}
 			continue
 		}
 		sum.Inconclusive += int64(o.Inconclusive)
